@@ -57,3 +57,7 @@ Proof.
   intros Hf. revert a. induction l as [|b t IH]; intros a Hl; cbn; [reflexivity|].
   inversion Hl as [|? ? Hb Ht]; subst. rewrite (Hf a b Hb). apply IH; assumption.
 Qed.
+
+(* checked_add / checked_sub returning Option *)
+Definition chk_add_opt (w a b : N) : option N := if a + b <=? tmax w then Some (a + b) else None.
+Definition chk_sub_opt (a b : N) : option N := if b <=? a then Some (a - b) else None.
